@@ -1,6 +1,6 @@
 """U7 - src/ipc.rs: thread-local side tables of IpcSender::send / OpaqueIpcMessage::to and the
 index <-> position layer (serialize_os_ipc_*, deserialize_os_ipc_*, IpcSharedMemory).  Verus."""
-from vf.gen import Unit, Fn, Clause, Hint, Rule, Loop, TlsWith, MutSelf, TailMethodToCall, AppendArg
+from vf.gen import QuestionFrom, Unit, Fn, Clause, Hint, Rule, Loop, TlsWith, MutSelf, TailMethodToCall, AppendArg
 
 F = "src/ipc.rs"
 
@@ -135,7 +135,8 @@ bytes_recv = Fn(F, ["impl IpcBytesReceiver", "recv"], ret="r", extra_params=G,
              Clause("ipc.IpcBytesReceiver.recv/ensures.error_is_the_platform_error_converted_once",
                     "r matches Err(e) ==> final(g).last().err is Some && e == conv_ipc(final(g).last().err->0)", ["C03", "C10"])],
     rules=[AppendArg("B50", r"self\.os_receiver\.recv\(", GA, "platform recv stub (logs what it handed up)", min_count=1),
-           Rule("D22", r"Err\(err\.into\(\)\)", "Err(into_ipc_error(err))", "`.into()` at type IpcError (From impl of unit U4b)")],
+           Rule("D22", r"Err\(err\.into\(\)\)", "Err(into_ipc_error(err))", "`.into()` at type IpcError (From impl of unit U4b)"),
+           QuestionFrom("D34", r"self\.os_receiver\.recv\(")],
     safety_props=["C18"])
 bytes_try_recv = Fn(F, ["impl IpcBytesReceiver", "try_recv"], ret="r", extra_params=G,
     ensures=[Clause("ipc.IpcBytesReceiver.try_recv/ensures.raw_payload_or_converted_error",
@@ -145,7 +146,8 @@ bytes_try_recv = Fn(F, ["impl IpcBytesReceiver", "try_recv"], ret="r", extra_par
              Clause("ipc.IpcBytesReceiver.try_recv/ensures.error_is_the_platform_error_converted_once",
                     "r matches Err(e) ==> final(g).last().err is Some && e == conv_try(final(g).last().err->0)", ["C10", "C03"])],
     rules=[AppendArg("B50", r"self\.os_receiver\.try_recv\(", GA, "platform try_recv stub", min_count=1),
-           Rule("D22", r"Err\(err\.into\(\)\)", "Err(into_try_recv_error(err))", "`.into()` at type TryRecvError")],
+           Rule("D22", r"Err\(err\.into\(\)\)", "Err(into_try_recv_error(err))", "`.into()` at type TryRecvError"),
+           QuestionFrom("D34", r"self\.os_receiver\.try_recv\(")],
     safety_props=["C18"])
 
 UNIT = Unit(
